@@ -47,7 +47,7 @@ def exact_events(ctx, ty, dtype, n):
 
 
 # ------------------------------------------------------------------ Mode R
-ROT = [0.0, 1e-10, 1e-4, 0.3, 1.0, 2.5, 3.0]
+ROT = [0.0, 1e-10, 1e-4, 2e-3, 0.3, 1.0, 2.5, 3.0]
 TRA = [0.0, 1e-3, 1.0, 30.0]
 SIG = [0.0, 1e-3, -0.5, 1.5]
 
@@ -127,6 +127,28 @@ def num_events(ctx, ty, dtype, per_cell):
                 allow = int(min(mp.ceil(4 * R.ad_norm6(ty, xi_log) / 30240 * max(abs(v) for v in ref + [mp.mpf(1)])
                                         / max(max(abs(v) for v in ref), mp.mpf(1e-300)) / eps), R.CAP))
             add("jinvp", R.vec_err(jinvp.tensor()[i].tolist(), ref, eps, floor=mp.mpf(1e-300)), fin(jinvp[i]), allow)
+    # Jinvp at moderate |Log X| with all blocks of comparable size: the documented Sim3 truncation allowance
+    # (|ad xi|^6 / 30240) is small there, so a wrong series coefficient is visible
+    mids = [0.05, 0.1, 0.3, 0.6, 1.0]
+    rows_m = []
+    for r in mids:
+        for _ in range(2 if ctx.quick else 8):
+            d = rand_dir(rng, L.ADIM[ty])
+            rows_m.append([r * v for v in d])
+    Xm = L.mkalg(ty, rows_m, dtype).Exp()
+    Pm = L.mkalg(ty, [rand_dir(rng, L.ADIM[ty]) for _ in rows_m], dtype)
+    Jm = Xm.Jinvp(Pm)
+    unit = mp.mpf(10) ** -12 if dt == "f64" else eps      # see LieNumTrace!Tol("jinvp_mid")
+    for i in range(len(rows_m)):
+        xi, pi = Xm.tensor()[i].tolist(), Pm.tensor()[i].tolist()
+        ref = R.jlinv_fd(ty, xi, pi)
+        allow = 0
+        if ty == "Sim3":
+            xi_log = R.log_ref(ty, R.mat_of(ty, xi))
+            allow = int(min(mp.ceil(4 * R.ad_norm6(ty, xi_log) / 30240 / max(max(abs(v) for v in ref), mp.mpf(1e-300)) / unit), R.CAP))
+        ev.append({"chk": "jinvp_mid", "ty": ty, "dt": dt, "err": R.vec_err(Jm.tensor()[i].tolist(), ref, unit, floor=mp.mpf(1e-300)),
+                   "finite": fin(Jm[i]), "allow": allow, "cell": {"ty": ty, "x": [mids[i // (2 if ctx.quick else 8)]]},
+                   "x": xi, "a": pi})
     # Jr on so3
     if ty == "SO3":
         xs = [[r * d for d in rand_dir(rng, 3)] for r in [0.0, 1e-12, 1e-6, 0.1, 1.0, 2.0, 3.0] for _ in range(per_cell)]
